@@ -160,3 +160,30 @@ def env_int(name, default):
         return int(os.environ.get(name, default))
     except ValueError:
         return default
+
+
+def seed_tempfile(seed):
+    """tempfile draws names from a private per-process RNG: re-seed it so that
+    directory listings (and therefore replays) do not depend on it."""
+    import tempfile
+
+    ns = tempfile._get_candidate_names()
+    ns._rng = random.Random(seed)
+    ns._rng_pid = os.getpid()
+
+
+class NameCanon:
+    """Canonical names for the event log: content-addressed entries keep a
+    short form of their name, anything else becomes tmp#k by first appearance."""
+
+    def __init__(self):
+        self.map = {}
+
+    def __call__(self, rel):
+        base = os.path.basename(rel)
+        stem = base[:-4] if base.endswith(".npz") else base
+        if len(stem) == 64 and all(c in "0123456789abcdef" for c in stem):
+            return os.path.join(os.path.dirname(rel), stem[:10] + base[len(stem):])
+        if rel not in self.map:
+            self.map[rel] = f"tmp#{len(self.map)}"
+        return self.map[rel]
